@@ -21,10 +21,12 @@ def truthy (o : Option String) : Option String :=
 
 /-! ### `float(x)` and `repr` of the result, without floats
 
-  ints print as `n.0` (|n| < 10^16; from 2^1024 on `float()` raises OverflowError), bools as `1.0` / `0.0`, a float is given by its `repr` already, a str is
-  parsed as `[ws][sign] digits[.digits] | .digits [ws]` (underscores between digits allowed) and printed
-  normalised — exact for decimals of at most 15 significant digits in [1e-4, 1e16) and for zero, which is what the
-  generators produce.  Exponents, `inf`, `nan` are outside the modelled alphabet. -/
+  A float is given by its `repr` already; bools are `1.0` / `0.0`; an int or a text is read as a decimal (`Dec`:
+  sign, significant digits, position of the point; text may carry `_` between digits and an exponent; `inf` /
+  `nan` words) and printed the way CPython prints the nearest double (`Dec.repr`).  That print is CPython's answer
+  for decimals of at most 15 significant digits with |exponent| ≤ 300 (`Dec.inAlphabet`): beyond that the nearest
+  double need not have the decimal itself as its shortest representation (2^53+1 prints as …992.0) — outside the
+  modelled alphabet, crossed by the generators in a stream that is judged by the oracle only. -/
 
 def isDigit (c : Char) : Bool := '0' ≤ c ∧ c ≤ '9'
 
@@ -39,19 +41,98 @@ where
     | c :: cs => if isDigit c then go (c :: acc) cs else (acc.reverse, c :: cs)
     | [] => (acc.reverse, [])
 
-def dropLeadingZeros (ds : List Char) : List Char :=
-  match ds.dropWhile (· = '0') with
-  | [] => ['0']
-  | r => r
+/-- a decimal number: sign, significant digits (no leading / trailing zeros; empty = zero) and `decpt`: the value is
+    0.d₁d₂…dₙ × 10^decpt -/
+structure Dec where
+  neg : Bool
+  digits : List Char
+  decpt : Int
+deriving Repr, DecidableEq
 
-def dropTrailingZeros (ds : List Char) : List Char :=
-  match (ds.reverse.dropWhile (· = '0')).reverse with
-  | [] => ['0']
-  | r => r
+/-- normalise all digits `ds` of a literal whose decimal point sits after `point` of them -/
+def mkDec (neg : Bool) (ds : List Char) (point : Int) : Dec :=
+  let lead := (ds.takeWhile (· = '0')).length
+  let body := ((ds.drop lead).reverse.dropWhile (· = '0')).reverse
+  if body.isEmpty then ⟨neg, [], 0⟩ else ⟨neg, body, point - lead⟩
 
-def reprDecimal (neg : Bool) (ip fp : List Char) : String :=
-  String.ofList ((if neg then ['-'] else []) ++ dropLeadingZeros ip ++ ['.'] ++ dropTrailingZeros fp)
+def natDigitsFuel : Nat → Nat → List Char → List Char
+  | 0, _, acc => acc
+  | f + 1, n, acc =>
+    if n < 10 then Char.ofNat (48 + n) :: acc else natDigitsFuel f (n / 10) (Char.ofNat (48 + n % 10) :: acc)
 
+/-- decimal digits of a natural number (up to 400 digits — more than any int `float()` accepts) -/
+def natDigits (n : Nat) : List Char := natDigitsFuel 400 n []
+
+/-- `repr` of the float nearest to the decimal — CPython's `float_repr_style = 'short'`: the shortest digit string
+    that round-trips, in fixed notation when -4 < decpt ≤ 16, else in exponent notation with at least two exponent
+    digits.  Exact when the decimal has at most 15 significant digits (every such decimal is the shortest
+    representation of its nearest double) and lies well inside the double range (`Dec.inAlphabet`). -/
+def Dec.repr (d : Dec) : String :=
+  let sign : List Char := if d.neg then ['-'] else []
+  match d.digits with
+  | [] => String.ofList (sign ++ "0.0".toList)
+  | d1 :: rest =>
+    let n : Int := (d.digits.length : Int)
+    if -4 < d.decpt ∧ d.decpt ≤ 16 then
+      if d.decpt ≤ 0 then
+        String.ofList (sign ++ '0' :: '.' :: (List.replicate (-d.decpt).toNat '0' ++ d.digits))
+      else if d.decpt ≥ n then
+        String.ofList (sign ++ d.digits ++ List.replicate (d.decpt - n).toNat '0' ++ ".0".toList)
+      else
+        String.ofList (sign ++ d.digits.take d.decpt.toNat ++ '.' :: d.digits.drop d.decpt.toNat)
+    else
+      let e : Int := d.decpt - 1
+      let ed := natDigits e.natAbs
+      let ed := if ed.length < 2 then '0' :: ed else ed
+      String.ofList (sign ++ d1 :: ((if rest.isEmpty then [] else '.' :: rest) ++ 'e' :: (if e < 0 then '-' else '+') :: ed))
+
+/-- the inputs on which `Dec.repr` is CPython's answer -/
+def Dec.inAlphabet (d : Dec) : Bool := d.digits.length ≤ 15 && decide (-300 ≤ d.decpt) && decide (d.decpt ≤ 300)
+
+/-- `[eE][+-]?digits` (underscores between digits allowed); returns the exponent -/
+def parseExp (cs : List Char) : Option Int :=
+  match cs with
+  | e :: rest =>
+    if e = 'e' ∨ e = 'E' then
+      let (neg, ds) : Bool × List Char :=
+        match rest with
+        | '-' :: r => (true, r)
+        | '+' :: r => (false, r)
+        | _ => (false, rest)
+      match digitPart ds with
+      | (x, []) => if x.isEmpty then none else
+          let v : Nat := x.foldl (fun acc c => acc * 10 + (c.toNat - 48)) 0
+          some (if neg then -(v : Int) else (v : Int))
+      | _ => none
+    else none
+  | [] => none
+
+/-- mantissa `digits[.digits] | .digits | digits.` then optional exponent, everything consumed -/
+def parseDec (neg : Bool) (cs : List Char) : Option Dec :=
+  let finish (ip fp : List Char) (rest : List Char) : Option Dec :=
+    if ip.isEmpty && fp.isEmpty then none else
+    match rest with
+    | [] => some (mkDec neg (ip ++ fp) ip.length)
+    | _ => match parseExp rest with
+      | some e => some (mkDec neg (ip ++ fp) (ip.length + e))
+      | none => none
+  match cs with
+  | '.' :: r =>
+    let (fp, rest) := digitPart r
+    if fp.isEmpty then none else finish [] fp rest
+  | _ =>
+    let (ip, rest) := digitPart cs
+    if ip.isEmpty then none else
+    match rest with
+    | '.' :: r =>
+      let (fp, rest') := digitPart r
+      -- `1._5` is not a number: after the point either a digit part or nothing
+      (match r with
+       | '_' :: _ => none
+       | _ => finish ip fp rest')
+    | _ => finish ip [] rest
+
+/-- `repr(float(s))` for text; none = ValueError -/
 def parseFloatText (s : String) : Option String :=
   let cs := (Py.strip s).toList
   let (neg, cs) : Bool × List Char :=
@@ -59,29 +140,35 @@ def parseFloatText (s : String) : Option String :=
     | '-' :: r => (true, r)
     | '+' :: r => (false, r)
     | _ => (false, cs)
-  match cs with
-  | '.' :: r =>
-    match digitPart r with
-    | (fp, []) => if fp.isEmpty then none else some (reprDecimal neg [] fp)
-    | _ => none
-  | _ =>
-    match digitPart cs with
-    | (ip, []) => if ip.isEmpty then none else some (reprDecimal neg ip [])
-    | (ip, ['.']) => if ip.isEmpty then none else some (reprDecimal neg ip [])
-    | (ip, '.' :: r) =>
-      if ip.isEmpty then none else
-      match digitPart r with
-      | (fp, []) => if fp.isEmpty then none else some (reprDecimal neg ip fp)
-      | _ => none
-    | _ => none
+  let low := String.ofList (cs.map Char.toLower)
+  if low = "inf" ∨ low = "infinity" then some (if neg then "-inf" else "inf")
+  else if low = "nan" then some "nan"
+  else (parseDec neg cs).map Dec.repr
 
-def intFloat (n : Int) : String := toString n ++ ".0"
+/-- is the text inside the alphabet on which `parseFloatText` is CPython's `repr(float(s))` -/
+def textInAlphabet (s : String) : Bool :=
+  let cs := (Py.strip s).toList
+  let cs := match cs with | '-' :: r => r | '+' :: r => r | _ => cs
+  match parseDec false cs with
+  | some d => d.inAlphabet
+  | none => true
 
-/-- `repr(float(result))`; none = `float()` raises (TypeError / ValueError) -/
+def intDec (n : Int) : Dec := mkDec (decide (n < 0)) (natDigits n.natAbs) (natDigits n.natAbs).length
+
+/-- 2^1024 − 2^970: the smallest int whose nearest double would be 2^1024 (written out: the elaborator does not
+    evaluate such powers) -/
+def floatOverflowFrom : Nat :=
+  179769313486231580793728971405303415079934132710037826936173778980444968292764750946649017977587207096330286416692887910946555547851940402630657488671505820681908902000708383676273854845817711531764475730270069855571366959622842914819860834936475292719074168444365510704342711559699508093042880177904174497792
+
+/-- `repr(float(n))` for an int: OverflowError from 2^1024 − 2^970 on -/
+def intFloat (n : Int) : Option String :=
+  if n.natAbs ≥ floatOverflowFrom then none else some (intDec n).repr
+
+/-- `repr(float(result))`; none = `float()` raises (TypeError / ValueError / OverflowError) -/
 def floatRepr (o : Outcome) : Option String :=
   if o.failed || o.isExc then none else
   match o.val with
-  | .int n => if n.natAbs ≥ 2 ^ 1024 then none else some (intFloat n)      -- OverflowError: int too large
+  | .int n => intFloat n
   | .bool b => some (if b then "1.0" else "0.0")
   | .float r => some r
   | .str s => parseFloatText s
@@ -113,7 +200,7 @@ deriving Repr, DecidableEq
 
 def labelValue (ev : String → Outcome) (l : Label) : LVal :=
   match truthy l.expr with
-  | some e => .text (ev e).text
+  | some e => .text (if (ev e).strRaises then labelFailedText else (ev e).text)   -- `str(...)` raising: the failure text
   | none => .static l.static
 
 /-- `labels[key] = value` on an insertion-ordered dict (keys unique): an existing key keeps its position and
@@ -125,12 +212,19 @@ def dictSet : List (String × LVal) → String → LVal → List (String × LVal
 def labelsOf (ev : String → Outcome) (ls : List Label) : List (String × LVal) :=
   ls.foldl (fun d l => dictSet d l.key (labelValue ev l)) []
 
-def defaultValue : String := intFloat metricValueDefault
+/-- the value as it reaches the processor, with its Python type: `float:<repr>` for a converted expression; the
+    default is the literal of the source — an `int` when written `1` -/
+def defaultValue : String :=
+  if metricValueDefaultIsInt then
+    String.ofList ("int:".toList ++ (if metricValueDefault < 0 then ['-'] else []) ++ natDigits metricValueDefault.natAbs)
+  else "float:" ++ (intFloat metricValueDefault).getD ""
 
 def metricValue (ev : String → Outcome) (d : MDef) : String :=
   match truthy d.expr with
   | none => defaultValue
-  | some e => (floatRepr (ev e)).getD defaultValue
+  | some e => match floatRepr (ev e) with
+    | some r => "float:" ++ r
+    | none => defaultValue
 
 inductive ArgVal
   | str (s : Option String)
